@@ -5,7 +5,8 @@ cd /verif || exit 2
 miss=0
 for d in seeded/*/; do
   name=$(basename "$d")
-  id=$(python3 -c "import json;print(json.load(open('$d/meta.json'))['breaks_property'])")
+  # the check recorded as detecting it (the target check, except where meta.json names a sibling)
+  id=$(python3 -c "import json;m=json.load(open('$d/meta.json'));print((m.get('detected_by') or {}).get('check') or m['breaks_property'])")
   line=$(tools/run_seeded.sh "/verif/$d" "$id" 2>&1 | tail -1)
   echo "$line"
   case "$line" in *"exit=1"*) ;; *) miss=1 ;; esac
